@@ -20,6 +20,13 @@ FILES = {
     "c.sql": "select 1 +\n",                     # parse error
     "d.sql": "SELECT 1 AS y\n",                  # clean
 }
+# templated files whose directories carry DIFFERENT jinja contexts (nested .sqlfluff): e defines my_var, f and g do not
+TFILES = {
+    "e.sql": "SELECT {{ my_var }} AS x FROM t\n",
+    "f.sql": "SELECT {{ my_var }} AS y FROM u\n",       # my_var undefined here -> TMP
+    "g.sql": "SELECT  {{ my_var }} AS z, {{ other }} FROM v\n",
+}
+TCONFIGS = {"e": "[sqlfluff:templater:jinja:context]\nmy_var = col_a\n", "g": "[sqlfluff:templater:jinja:context]\nother = col_b\n"}
 _DIR = None
 _SERIAL = {}
 
@@ -34,6 +41,14 @@ def _tree(n):
             sub = os.path.join(_DIR, name[0])
             os.makedirs(sub, exist_ok=True)
             open(os.path.join(sub, name), "w").write(sql)
+        for name, sql in TFILES.items():
+            sub = os.path.join(_DIR, name[0])
+            os.makedirs(sub, exist_ok=True)
+            open(os.path.join(sub, name), "w").write(sql)
+            if name[0] in TCONFIGS:
+                open(os.path.join(sub, ".sqlfluff"), "w").write(TCONFIGS[name[0]])
+    if n == "templated":
+        return [os.path.join(_DIR, name[0], name) for name in TFILES]
     return [os.path.join(_DIR, name[0], name) for name in list(FILES)[:n]]
 
 
@@ -74,10 +89,16 @@ def make(n):
     def factory(excluded=frozenset()):
         def harness(c):
             paths = _tree(n)
-            from symlite.values import choose
-            warnings = choose(c, "warnings_config", WARNINGS)
-            order_paths = _perm(c, "path_order", n)
-            order_done = _perm(c, "finish_order", n)
+            from symlite.values import choose, fresh_bool
+            warnings = choose(c, "warnings_config", WARNINGS if n != "templated" else [None])
+            order_paths = _perm(c, "path_order", len(paths))
+            if n == "templated" and bool(fresh_bool(c, "single_process")):
+                # the same path list, permuted, through the REAL sequential runner: must equal the reference order's result
+                res = Linter(config=_cfg(warnings)).lint_paths(tuple(paths[i] for i in order_paths), processes=1)
+                if order_paths != sorted(order_paths):
+                    c.witness("serial_permuted_paths")
+                return _summary(res) == serial(n, warnings)
+            order_done = _perm(c, "finish_order", len(paths))
 
             class PermRunner(rmod.ParallelRunner):
                 """Real ParallelRunner.run/_apply; the pool hands results back in a symbolic order and every task and
@@ -109,6 +130,7 @@ def make(n):
 
 
 def units(tier, seed):
+    serial("templated", None)
     for w in WARNINGS:
         serial(4 if tier != "quick" else 3, w)  # temp tree + serial references built in the parent process
     return [Unit(
@@ -121,4 +143,13 @@ def units(tier, seed):
                "pickled and unpickled"],
         outside=["OS scheduling, real worker processes, fix mode file writes"],
         witnesses_required=["out_of_order_completion", "permuted_paths"], sharded=False, timeout_s=900)
-        for n in ([3] if tier == "quick" else [3, 4])]
+        for n in ([3] if tier == "quick" else [3, 4])] + [Unit(
+        name="c24.templated_nested_contexts[3 files]",
+        functions=["sqlfluff.core.linter.runner.SequentialRunner/ParallelRunner.run/_apply (worker-side render)", "Linter.render_file / load_raw_file_and_config",
+                   "JinjaTemplater.get_context", "FluffConfig.__getstate__/__setstate__ (real pickle round trip)"],
+        bounds={"files": "3 jinja files in 3 directories, two of which define different templater contexts in a nested .sqlfluff",
+                "path orders": "all 3!", "mode": "1 process (real sequential runner) or 2 (all 3! completion orders)"},
+        make=make("templated"), replay="concrete",
+        stubs=["multiprocessing pool -> in-process map with symbolic completion order and real pickle round trips"],
+        outside=["OS scheduling, real worker processes, fix mode file writes"],
+        witnesses_required=["out_of_order_completion", "permuted_paths", "serial_permuted_paths"], sharded=False, timeout_s=900)]
